@@ -132,6 +132,8 @@ func init() {
 		Fixtures:    []string{"a3", "u"},
 		Run:         runC07,
 		SelfTest: []Mutation{
+			{Name: "transformed collision normal is not renormalised", File: "model3d/transform.go",
+				Old: "Normal: t.t.Apply(rc.Normal).Sub(t.t.Apply(zero)).Normalize(),", New: "Normal: t.t.Apply(rc.Normal).Sub(t.t.Apply(zero)),", Rule: "UNITNORMAL", Expect: "outerCollision"},
 			{Name: "FirstRayCollision stops one step before RayCollisions", File: "model3d/collisions.go",
 				Old: "\tstartInside := s.Solid.Contains(r.Origin)\n\tfor t := minFrac; t <= maxFrac+fracStep; t += fracStep {", New: "\tstartInside := s.Solid.Contains(r.Origin)\n\tfor t := minFrac; t <= maxFrac; t += fracStep {", Rule: "SIBLOOP", Expect: "SolidCollider"},
 			{Name: "InterpNormalTriangle.RayCollisions reports hits behind the origin", File: "model3d/primitives.go",
@@ -192,6 +194,9 @@ func runC07(c *Ctx) {
 	c.floor("SIGNED", 8)
 	c.runSibLoop("SIBLOOP", append(c.libPkgs()[:2:2], c.fixturePkg("u")), [2]string{"RayCollisions", "FirstRayCollision"})
 	c.floor("SIBLOOP", 0)
+	// collision records carry unit normals
+	c.runUnitNormal("UNITNORMAL", upkgs, nil)
+	c.floor("UNITNORMAL", 20)
 }
 
 // allRepoPkgs: every loaded root package of the repository plus the fixtures.
